@@ -43,7 +43,12 @@ def regen():
 
 # ---------------------------------------------------------------- step 3: prove
 def lake_build(targets):
-    r = sh(['lake', 'build'] + targets, cwd=LEAN)
+    for attempt in range(4):
+        r = sh(['lake', 'build'] + targets, cwd=LEAN)
+        # lean / leanc killed by the kernel (exit 137 = SIGKILL, out of memory on a loaded machine): infrastructure, try again
+        if r.returncode != 0 and re.search(r'exited with code 137|Killed signal|Cannot allocate memory|out of memory', r.stdout):
+            time.sleep(30 * (attempt + 1)); continue
+        break
     return r.returncode == 0, r.stdout
 
 def first_errors(log, maxn=6):
